@@ -138,4 +138,47 @@ def verdict (cfg : Cfg) (script : List Resp) (o : Obs) : String :=
     else if !o.afresh then "later-request-does-not-pull-afresh"
     else "ok"
 
+/-! ### the session id (RFC 2326 §12.37)
+
+Once a successful answer has carried a `Session` header, the session exists for the camera: every later
+request has to name it, or the camera answers 454 Session Not Found — whatever lay between that answer and
+the request (a 401 challenge and the authenticated repetition in particular).  The clause is about what
+was observed: `carried[j]` says whether request j had the Session header with the id.  It does not speak of
+a camera whose latest successful answer came without the header. -/
+
+/-- a successful answer that carries the session id -/
+def sessGiven : Resp → Bool
+  | .status code _ s => decide (200 ≤ code ∧ code ≤ 300) && s != .none
+  | _ => false
+
+/-- `have_`: the latest successful answer before request j carried the session id -/
+def sessionCarriedFrom (script : List Resp) : Nat → Bool → List Bool → Bool
+  | _, _, [] => true
+  | j, have_, c :: cs =>
+    (!have_ || c) &&
+      sessionCarriedFrom script (j + 1) (if isSuccess (respAt script j) then sessGiven (respAt script j) else have_) cs
+
+/-- every request sent after a successful answer that handed out (or repeated) the session id names it -/
+def sessionCarried (script : List Resp) (carried : List Bool) : Bool :=
+  sessionCarriedFrom script 0 false carried
+
+/-- the verdict on an observation together with the Session headers of its requests -/
+def verdictS (cfg : Cfg) (script : List Resp) (o : Obs) (carried : List Bool) : String :=
+  let v := verdict cfg script o
+  if v != "ok" then v
+  else if !sessionCarried script carried then "session-id-not-carried"
+  else "ok"
+
+/-- the cameras of the class "accepts the route's credentials and behaves per RFC 2326": one successful
+    answer per step, the session id from the first SETUP (step 2) on, and a valid challenge of kind `ch`
+    in front of the steps the mask names -/
+def rfcScript (ch : Chal) (mask : List Bool) : List Resp :=
+  (mask.zipIdx.map (fun (m, i) =>
+    (if m then [Resp.status 401 ch .none] else []) ++
+      [Resp.status 200 .other (if 2 ≤ i then Sess.plain else Sess.none)])).flatten
+
+def masks : Nat → List (List Bool)
+  | 0 => [[]]
+  | n + 1 => (masks n).flatMap (fun m => [false :: m, true :: m])
+
 end IpcHub.PullSpec
